@@ -35,22 +35,29 @@ def source_priorities(ctx, rule):
     cands = facts.fns_matching(r"^watchexec::sources::signal::.*send_event(::\{closure#\d+\})?$")
     body = [c for c in cands if c.kind == "coroutine"] or cands
     sigf = ctx.anchor_one(rule, "signal source send_event", body[:1] if body else [])
-    m = [x for x in thir.find(thir.root(sigf), "match") if x["sty"].endswith("watchexec_signals::Signal")]
-    if len(m) != 1:
-        ctx.violation(rule, "floor:signal-priority-match", "signal source no longer maps signals to priorities with one match", sigf.loc(sigf.line))
+    # the priority argument of the one send, as a function of the signal: decided per variant with pattern semantics (match, matches!, ==,
+    # through single-use locals and spliced helpers), whatever shape the mapping is written in
+    rs = thir.root(sigf)
+    sends_ = [nd for c, nd in thir.calls_in(rs) if strip_generics(c).endswith("Sender::send") and len(nd["a"]) == 3 and "Priority" in str(thir.peel(nd["a"][2]).get("ty", "Priority"))]
+    sends_ = [nd for nd in sends_ if pathx.desc(nd["a"][0]).lstrip("^").startswith("events")]
+    if len(sends_) != 1:
+        ctx.violation(rule, "floor:signal-priority-match", "signal source no longer queues its event with exactly one events.send(event, priority)", sigf.loc(sigf.line), detail=str(len(sends_)))
     else:
         S = "watchexec_signals::Signal"
         want = {"Interrupt": "Urgent", "Terminate": "Urgent", "Hangup": "High", "Quit": "High", "User1": "High", "User2": "High",
                 "ForceStop": "High", "Custom": "High"}
+        sub_ = pathx.let_substitutions(rs, deep=True)
+        signame = "sig"
+        for owner in (sigf, facts.find_fn(getattr(sigf, "parent", None) or "")):
+            for pr_ in ((owner.thir or {}).get("params", []) if owner is not None else []):
+                if str(pr_.get("ty", "")).endswith("watchexec_signals::Signal") and isinstance(pr_.get("pat"), dict) and pr_["pat"].get("k") == "bind":
+                    signame = pr_["pat"]["n"]
         for v, pr in sorted(want.items()):
             val = ("v", S, v, {"0": thir.ANY} if v == "Custom" else {})
-            i = thir.first_arm(m[0], val)
-            got = None
-            if i is not None:
-                ev = thir.expr_value(m[0]["arms"][i]["b"])
-                got = ev[2] if ev[0] == "v" else None
-            ctx.require(got == pr, rule, "signal-priority:" + v, "signal %s is queued at %s priority" % (v, pr), sigf.loc(m[0]["l"]),
-                        fail="signal %s is queued at %s priority, documented %s" % (v, got, pr))
+            ev = thir.decide(sends_[0]["a"][2], signame, val, sub_)
+            got = ev[2] if ev and ev[0] == "v" else None
+            ctx.require(got == pr, rule, "signal-priority:" + v, "signal %s is queued at %s priority" % (v, pr), sigf.loc(sends_[0]["l"]),
+                        fail="signal %s is queued at %s priority, documented %s" % (v, got if ev else "an undecidable", pr))
     kb = [c for c in facts.fns_matching(r"^watchexec::sources::keyboard::.*send_event") if c.kind == "coroutine"]
     kbf = ctx.anchor_one(rule, "keyboard source send_event", kb[:1])
     sends = [t for _, t in kbf.calls() if t.callee.is_("async_priority_channel::Sender::send", "async_priority_channel::Sender::try_send")]
